@@ -420,6 +420,8 @@ FLAG_EXEMPT = {
 
 
 def run(ctx):
+    from . import c02
+    c02.rule_dimensions(ctx)     # R02.4: every force term carries G exactly once (a method whose error does not shrink with dt when G != 1)
     from . import c10
     c10.rule_janus_sequence(ctx)     # R10.3/R10.5j: every stage of JANUS applies the same unit conversion (a stage with the wrong scale is a different method)
     rule_force_terms_flag(ctx)
